@@ -328,3 +328,9 @@ func VPopScanline(list []int64) (int64, []int64, bool) {
 	y, ok := c.popScanline()
 	return y, c.scanlineList, ok
 }
+
+// VPointInOpPolygon runs the real pointInOpPolygon on a synthetic output ring (ring[0] is op).
+func VPointInOpPolygon(pt Point64, ring Path64) int {
+	o := &OutRec{}
+	return int(pointInOpPolygon(pt, vSynthRing(o, ring)))
+}
